@@ -9,6 +9,7 @@ import (
 	"os"
 	"os/exec"
 	"path/filepath"
+	"regexp"
 	"runtime"
 	"sort"
 	"strconv"
@@ -36,6 +37,7 @@ func register(p *propSpec) { props[p.ID] = p }
 type knownFinding struct {
 	Property string `json:"property"`
 	Key      string `json:"key"`
+	KeyRegex string `json:"key_regex,omitempty"` // alternative to key: a family of keys (e.g. one pattern under every option subset)
 	Status   string `json:"status"` // "open" or "fixed"
 	What     string `json:"what"`
 	Commit   string `json:"commit,omitempty"`
@@ -358,10 +360,26 @@ func report(p *propSpec, tier string, seed int, results []UnitResult, t0 time.Ti
 	// known findings
 	known := loadKnown()
 	knownOpen := map[string]knownFinding{}
+	var knownRe []knownFinding
 	for _, k := range known {
 		if k.Property == p.ID && k.Status == "open" {
-			knownOpen[k.Key] = k
+			if k.KeyRegex != "" {
+				knownRe = append(knownRe, k)
+			} else {
+				knownOpen[k.Key] = k
+			}
 		}
+	}
+	lookupKnown := func(key string) (knownFinding, bool) {
+		if k, ok := knownOpen[key]; ok {
+			return k, true
+		}
+		for _, k := range knownRe {
+			if m, _ := regexp.MatchString(k.KeyRegex, key); m {
+				return k, true
+			}
+		}
+		return knownFinding{}, false
 	}
 	// replay: violations (must reproduce) and a sample of passing paths (must agree)
 	var cases []replayCase
@@ -445,13 +463,17 @@ func report(p *propSpec, tier string, seed int, results []UnitResult, t0 time.Ti
 	}
 	os.MkdirAll(filepath.Join(verifDir, "replays"), 0o755)
 	nviol := 0
+	knownPrinted := map[string]bool{}
 	for i, vr := range vrecs {
 		cid := cases[i].ID
 		if !reproduced[cid] {
 			continue
 		}
-		if k, ok := knownOpen[vr.key]; ok {
-			lines = append(lines, fmt.Sprintf("KNOWN-FINDING: property=%s %s", p.ID, k.What))
+		if k, ok := lookupKnown(vr.key); ok {
+			if !knownPrinted[k.What] {
+				lines = append(lines, fmt.Sprintf("KNOWN-FINDING: property=%s %s", p.ID, k.What))
+				knownPrinted[k.What] = true
+			}
 			knownSeen = append(knownSeen, vr.key)
 			continue
 		}
